@@ -118,13 +118,20 @@ def bounded_scenarios(prop, budget=240, tier="quick"):
     if not exe: return out
     t_end = time.time() + budget
     for argv in BOUNDED_SCEN.get(prop, []) + (thorough_extra_scenarios(prop) if tier == "thorough" else []):
-        if time.time() > t_end: break
-        try:
-            p = subprocess.run([exe] + argv, stdout=subprocess.PIPE, stderr=subprocess.STDOUT, text=True, timeout=90, env=dict(os.environ, RUST_BACKTRACE="0"))
-            tail = "\n".join(l for l in p.stdout.strip().split("\n") if "auto_activate_base" not in l)[-600:]
-            out.append({"argv": argv, "ok": p.returncode == 0, "output": tail})
-        except subprocess.TimeoutExpired:
-            out.append({"argv": argv, "ok": False, "output": "scenario did not terminate within 90 s (hang)"})
+        if time.time() > t_end and len(out) > 0: break
+        # a scenario normally takes well under a second; fsync-heavy ones can stall on a busy disk, so a timeout is only believed
+        # (reported as a hang) when it repeats with a four times longer limit
+        done_ = False
+        for lim in (120, 480):
+            try:
+                p = subprocess.run([exe] + argv, stdout=subprocess.PIPE, stderr=subprocess.STDOUT, text=True, timeout=lim, env=dict(os.environ, RUST_BACKTRACE="0"))
+                tail = "\n".join(l for l in p.stdout.strip().split("\n") if "auto_activate_base" not in l)[-600:]
+                out.append({"argv": argv, "ok": p.returncode == 0, "output": tail}); done_ = True
+                break
+            except subprocess.TimeoutExpired:
+                continue
+        if not done_:
+            out.append({"argv": argv, "ok": False, "output": "scenario did not terminate within 120 s, nor within 480 s when repeated (hang)"})
     return out
 
 def witness_search(oid_):
